@@ -75,6 +75,9 @@ func runsOf(s string, pal string) []any {
 	return out
 }
 
+// runcmdHangs counts the commands of this process that did not return before the deadline.
+var runcmdHangs int
+
 func isNilMetadata(md intoto.Metadata) bool {
 	switch m := md.(type) {
 	case *intoto.Metablock:
@@ -137,6 +140,11 @@ func init() {
 			done <- result{m, err}
 		}()
 		deadline := 20 * time.Second
+		if runcmdHangs >= 2 {
+			// two commands already ran into the full deadline: the hang is established, the remaining
+			// cases need not wait 20 s each (a check must end in minutes also on a tree that hangs)
+			deadline = 4 * time.Second
+		}
 		select {
 		case r := <-done:
 			if r.err != nil {
@@ -146,6 +154,7 @@ func init() {
 				"stdout_runs": runsOf(r.m["stdout"].(string), pal), "stderr_runs": runsOf(r.m["stderr"].(string), pal),
 				"complete_in_model": true, "exit": int(r.m["return-value"].(float64))}
 		case <-time.After(deadline):
+			runcmdHangs++
 			killChildren()
 			<-done
 			return map[string]any{"completed": false}
